@@ -4,6 +4,10 @@ import json, os
 ROOT = os.path.dirname(os.path.dirname(os.path.abspath(__file__)))
 props = [json.loads(l) for l in open(os.path.join(ROOT, "properties.jsonl"))]
 CLAIMED = {
+ "C03": dict(
+   text="Coq theorems (any field with conjugation): the inverse operation list regenerated from Scaler.inverse_transform_data undoes the list regenerated from Scaler.transform element by element for all flag combinations (forced hypotheses: std, coslat weight, user weight non-zero); with all modes kept the model's scores reconstruct the decomposed matrix exactly; transform(inverse_transform(S)) = S for every score matrix S of any sample count; the normalized switches (regenerated from base_model_single_set.py) differ from the default exactly by the norms. Correspondence: the scaler model at binary64 vs Scaler on all 16 flag/weight combinations; oracles at the public API for EOF/ComplexEOF/HilbertEOF and the CPCCA family (full-mode reconstruction in physical units, transform o inverse on arbitrary scores and coordinates, normalized switches).",
+   note="Trusted: Coq kernel; translator T4/T5eof/T3; xarray broadcasting of per-feature statistics (modelled as per-column parameters); SVD oracle; cross-set reconstruction is covered by oracle+correspondence here and by the CPCCA theorems of C09/C16.",
+   technique="Coq proof over source-regenerated scaler op lists and EOF model + float correspondence", ref="4/C03"),
  "C01": dict(
    text="Coq theorems, for every field with an involutive conjugation (so real and complex data at once) and every shape/spectrum/k: from the SVD oracle's specification the model's components are orthonormal, scores are mutually orthogonal with norms the leading singular values, (X^H X/(n-1)) v_i = (s_i^2/(n-1)) v_i, X^H X = V diag(s^2) V^H over all modes, the k-mode reconstruction error equals the discarded squared singular values, and with centred columns the ddof=1 total variance is the sum of all s_i^2/(n-1); at the real instance: explained variances non-negative and descending, ratios in [0,1] summing to one. The normalisation constants, conjugations, sign rule and stored names in the model are proved equal to the definitions regenerated from eof.py/decomposer.py/xarray_utils.py on every run. Correspondence: the same Gallina model run at binary64 (real and complex) against EOF/ComplexEOF/HilbertEOF/ExtendedEOF fits, SVD oracle residuals re-checked inside Coq. Eckart-Young over arbitrary rank-k matrices is stated, not proved (partial); randomised solvers are tested only.",
    note="Trusted: Coq kernel/vm_compute; translator T3/T3b/T5eof; numpy SVD as oracle with checked residuals; Hilbert transform opaque (the decomposed matrix is data['input_data']); Coq.Reals axioms in the three order theorems; rounding gap float vs field (rtol 1e-8).",
